@@ -65,6 +65,7 @@ type FuncContract struct {
 	EntryLets   [][2]string         // name, expression: evaluated once in the entry state
 	FrameProps  []string            // properties owning the frame obligations
 	FnParams    map[string][]string // function-typed parameter -> heaps it may write
+	Unproved    [][2]string         // obligation-name substring, reason: generated obligation is out of reach and only assumed (listed, never counted)
 	FnType      string              // non-empty: contract of every function value of this signature
 	ParamNames  []string            // for fntype contracts: names of the parameters
 }
@@ -207,6 +208,12 @@ func loadContracts(dir string) (*Contracts, error) {
 					cur.Props = splitProps(rest)
 				case "safety":
 					cur.SafetyProps = splitProps(rest)
+				case "unproved":
+					pat, reason := rest, ""
+					if k := strings.Index(rest, " : "); k >= 0 {
+						pat, reason = rest[:k], rest[k+3:]
+					}
+					cur.Unproved = append(cur.Unproved, [2]string{strings.TrimSpace(pat), strings.TrimSpace(reason)})
 				case "params":
 					cur.ParamNames = strings.Fields(rest)
 				case "frameprops":
